@@ -839,6 +839,50 @@ func buildResponse(rng *rand.Rand, sc *Scenario, m methodInfo, ss serverSide, e 
 				break
 			}
 		}
+	case 3, 4, 5: // stop writing a few bytes (around the envelope size) before the end of a message, then finish as usual
+		first, last := -1, -1
+		var body []byte
+		for i := range script {
+			if script[i][0] == "write" && script[i][1] != "-" {
+				if first < 0 {
+					first = i
+				}
+				last = i
+				body = append(body, unhx(script[i][1])...)
+			}
+		}
+		// message ends inside the written body (envelopes of the enveloped target protocols)
+		var ends []int
+		for off := 0; off+5 <= len(body); {
+			n := int(binary.BigEndian.Uint32(body[off+1 : off+5]))
+			if body[off]&0x82 != 0 || n > len(body)-off-5 {
+				break
+			}
+			off += 5 + n
+			if n > 0 {
+				ends = append(ends, off)
+			}
+		}
+		if first >= 0 && len(ends) > 0 && ss.proto != "connect-unary" && ss.proto != "other" {
+			end := pick(rng, ends)
+			d := 1 + rng.IntN(7)
+			if rng.IntN(2) == 0 {
+				d = 5 // exactly an envelope's length is missing
+			}
+			if end-d > 0 {
+				var ns [][]string
+				ns = append(ns, script[:first]...)
+				ns = append(ns, writeOps(rng, body[:end-d])...)
+				for _, op := range script[last+1:] {
+					if op[0] != "write" {
+						ns = append(ns, op)
+					}
+				}
+				script = ns
+				e.Class(fmt.Sprintf("resp:stop-%d-before-message-end", d))
+				sc.gen.respClean = false
+			}
+		}
 	}
 	sc.Script = script
 	rebuildTables(sc, ss)
@@ -962,6 +1006,57 @@ func streamE2E(e *Emitter, rng *rand.Rand, tier string) {
 		sc := genScenario(e, rng)
 		raw, _ := json.Marshal(sc)
 		e.Emit("e2e " + hex.EncodeToString(raw))
+	}
+	// directed families: conjunctions of choices that are rare under independent draws (a particular
+	// fault AND a client whose end does not travel in the body AND a converting target ...) are drawn
+	// by rejection sampling from the same generator, so that every run has some of each
+	has := func(xs []string, x string) bool { return slices.Contains(xs, x) }
+	classWith := func(cl map[string]int, prefix string) bool {
+		for k := range cl {
+			if strings.HasPrefix(k, prefix) {
+				return true
+			}
+		}
+		return false
+	}
+	families := []struct {
+		label string
+		pred  func(sc *Scenario, cl map[string]int) bool
+	}{
+		// the backend stops exactly an envelope's length before the end of a message and then reports success;
+		// the client is told the outcome outside the body (Connect unary, gRPC), the target converts
+		{"stop-5-then-success/unary-client", func(sc *Scenario, cl map[string]int) bool {
+			return cl["resp:stop-5-before-message-end"] > 0 && sc.ClientProto == "connect-unary" && !has(sc.Cfg.Protocols, "connect")
+		}},
+		{"stop-5-then-success/grpc-client", func(sc *Scenario, cl map[string]int) bool {
+			return cl["resp:stop-5-before-message-end"] > 0 && sc.ClientProto == "grpc" && !has(sc.Cfg.Protocols, "grpc")
+		}},
+		{"stop-near-end/unary-client", func(sc *Scenario, cl map[string]int) bool {
+			return classWith(cl, "resp:stop-") && sc.ClientProto == "connect-unary" && !has(sc.Cfg.Protocols, "connect")
+		}},
+		// a cut request body towards a converting target
+		{"req-cut/converting-target", func(sc *Scenario, cl map[string]int) bool {
+			return cl["req:cut"] > 0 && ((sc.ClientProto == "grpc" && !has(sc.Cfg.Protocols, "grpc")) || (sc.ClientProto == "grpcweb" && !has(sc.Cfg.Protocols, "grpcweb")))
+		}},
+	}
+	per := n / 50
+	for _, f := range families {
+		for k := 0; k < per; k++ {
+			for try := 0; try < 4000; try++ {
+				scratch := &Emitter{kinds: map[string]int{}, classes: map[string]int{}, nontriv: map[string]struct{}{}}
+				sc := genScenario(scratch, rng)
+				if !f.pred(sc, scratch.classes) {
+					continue
+				}
+				for c, v := range scratch.classes {
+					e.classes[c] += v
+				}
+				e.Class("directed:" + f.label)
+				raw, _ := json.Marshal(sc)
+				e.Emit("e2e " + hex.EncodeToString(raw))
+				break
+			}
+		}
 	}
 }
 
